@@ -377,6 +377,12 @@ def enc_input(v):
         base[22] = val
         return base, ['192.168.7.0/24']
     base = {1: 0, 2: [(2, [65001])]}
+    if sub == 'v6ll':
+        val = {'afi_safi': (2, 1), 'nexthop': '2001:db8::9', 'nlri': [prefix_any(q) for q in u['ps']]}
+        if u['ll'] != 'absent':
+            val['linklocal_nexthop'] = '' if u['ll'] == 'empty' else None
+        base[14] = val
+        return base, []
     if sub == 'evpn5':
         val = {'rd': '172.16.0.1:5904', 'esi': 0, 'eth_tag_id': 100, 'prefix': '%s/%d' % (ip_any(bytes(u['pa'])), u['pl']), 'label': [u['label']]}
         if u['gw']:
